@@ -47,7 +47,11 @@ def _case(draw, max_rows=7):
         nk = draw(st.integers(0 if kind == 'shared' else 1, 3))
     nl = draw(st.integers(0, max_rows))
     nr = draw(st.integers(0, max_rows))
-    profile = draw(st.sampled_from(['even'] * 6 + ['long_right', 'long_left']))
+    profile = draw(st.sampled_from(['even'] * 12 + ['long_right', 'long_left'] * 2 + ['big_right', 'big_left']))
+    if profile == 'big_right':         # absolute size thresholds
+        nl, nr = draw(st.integers(1, 4)), draw(st.sampled_from([64, 65, 100, 128]))
+    elif profile == 'big_left':
+        nl, nr = draw(st.sampled_from([64, 65, 100, 128])), draw(st.integers(1, 4))
     if profile == 'long_right':        # one side an order of magnitude longer than the other: size-dependent fast paths
         nl, nr = draw(st.integers(1, 2)), draw(st.integers(9, 30))
     elif profile == 'long_left':
@@ -280,6 +284,8 @@ def run_join(spec):
         cls.append('empty_side')
     if L and R and (len(R) > 8 * len(L) or len(L) > 8 * len(R)):
         cls.append('lopsided_sizes')
+    if max(len(L), len(R)) >= 64:
+        cls.append('side_of_64+_rows')
     if m2m:
         cls.append('many_to_many')
     if eq_not_identical:
@@ -299,5 +305,6 @@ SUBS = [
              'int/float twins, None; key spellings None/name/list/different names/callable left/callable right/[] (cross); modes None,l,r,0,1,callable; '
              'x.join(y), x*y, x.xor(y), x/y. Oracle: nested-loop reference compared as multisets, anti-join + partition law, operands unchanged (cell identity), '
              'fuel-bounded termination. non-trivial = many-to-many key or keys equal but not identical (int vs float, two NaN objects)',
-        floor=0.2, class_floors={'nan_keys_of_two_identities_match': 0.03, 'many_to_many': 0.1, 'op=xor': 0.1, 'lopsided_sizes': 0.08}),
+        floor=0.2, class_floors={'nan_keys_of_two_identities_match': 0.03, 'many_to_many': 0.1, 'op=xor': 0.1, 'lopsided_sizes': 0.08, 'side_of_64+_rows': 0.02}),
 ]
+SUBS[0].qshards = 8
